@@ -176,6 +176,31 @@ def _r1(ctx, repo, A):
                    for fi, st in writes if fi.qual == "Process.wait"))
         for n in allrets)
     cached = guarded and from_cache
+    # psutil.Popen keeps TWO records of the exit status (its own and the wrapped
+    # subprocess.Popen's returncode, which subprocess's poll()/__exit__ fill in by
+    # themselves - with 0 when the child was already reaped): wait() answers from the
+    # subprocess record when it is set, so it must also WRITE what it learned there
+    pw = repo.func("psutil", "Popen.wait", required=False)
+    if pw is not None:
+        def is_rc(e):
+            d_ = dotted(e) or ""
+            return d_.endswith("subproc.returncode")
+        reads_rc = any(isinstance(r_, ast.Return) and r_.value is not None
+                       and is_rc(deref(pw.node, r_.value)) for r_ in ast.walk(pw.node))
+        sup = [c_ for c_ in ast.walk(pw.node) if isinstance(c_, ast.Call)
+               and isinstance(c_.func, ast.Attribute) and c_.func.attr == "wait"
+               and isinstance(c_.func.value, ast.Call) and dotted(c_.func.value.func) == "super"]
+        stores_rc = [st_ for st_ in ast.walk(pw.node) if isinstance(st_, ast.Assign)
+                     and any(is_rc(t_) for t_ in st_.targets)
+                     and any(norm_stmt(deref(pw.node, st_.value)) == norm_stmt(c_) for c_ in sup)]
+        if not reads_rc or (sup and stores_rc):
+            ctx.ok("C15.R1", "popen:wait-writes-back", sample="subproc.returncode = super().wait(timeout)")
+        else:
+            ctx.fail("C15.R1", "popen:wait-writes-back", pw.file, pw.node.lineno, pw.qual,
+                     "Popen.wait() answers from subprocess's returncode when it is set but no "
+                     "longer stores the status it obtained there: subprocess's own poll()/"
+                     "__exit__ then records 0 for the already-reaped child and every later "
+                     "wait() returns 0 instead of the real exit status")
     if bad or not cached:
         ctx.fail("C15.R1", "wait:exitcode-memo", w.file, w.node.lineno, w.qual,
                  ("the cached exit code is written elsewhere: " + "; ".join(bad)) if bad
